@@ -130,8 +130,10 @@ func runC06(c *vk.Ctx) {
 		p := c07Profile(r)
 		p.Hostile = true
 		p.Terminate = r.Chance(1, 4)
+		p.First = r.Chance(1, 3)
 		a := app.Generate(r, p)
 		cfg := genConfig(r, a, "s")
+		cfg.First = a.Funcs["_first"] != nil
 		hist := a.History(r, r.Range(3, 15))
 		c.Begin(key)
 		for _, drv := range []string{"long", "mem"} {
